@@ -19,7 +19,8 @@ use std::str::FromStr;
 use std::sync::Arc;
 
 use bitcoin::hashes::{sha256, Hash};
-use bitcoin::key::{TapTweak, XOnlyPublicKey};
+use bitcoin::key::{TapTweak, TweakedPublicKey, XOnlyPublicKey};
+use bitcoin::{Address, Network};
 use bitcoin::opcodes::all as op;
 use bitcoin::script::Builder;
 use bitcoin::secp256k1::{self, Parity, Secp256k1, SecretKey};
@@ -566,6 +567,42 @@ struct Obs {
     parity: u8,
     spk: Vec<u8>,
     printed: String,
+    /// per network: Tr::address (script_pubkey, text), Descriptor::address (script_pubkey, text) or its error
+    addrs: Vec<((Vec<u8>, String), Result<(Vec<u8>, String), String>)>,
+    /// TrSpendInfo::to_tap_tree: Err(panic) | Ok(None) | Ok(Some((script, depth, is_tapscript, merkle branch)*, root)).
+    /// rust-bitcoin's TapTree lists its leaves with the children of every branch ordered by HASH,
+    /// not in DFS order, so the list is compared as a multiset (the merkle branches pin positions)
+    tap_tree: Result<Option<(Vec<(Vec<u8>, usize, bool, Vec<u8>)>, [u8; 32])>, String>,
+}
+const NETS: [Network; 5] = [Network::Bitcoin, Network::Testnet, Network::Testnet4, Network::Signet, Network::Regtest];
+/// the oracle's address for an output key: rust-bitcoin's own p2tr encoding of the already tweaked key
+fn oracle_addr(okey: &[u8; 32], net: Network) -> Address {
+    Address::p2tr_tweaked(TweakedPublicKey::dangerous_assume_tweaked(XOnlyPublicKey::from_slice(okey).expect("output key")), net)
+}
+/// address(network) must be the address of OP_1 <output key>, through Tr::address and Descriptor::address
+fn addr_problems(o: &Obs, okey: &[u8; 32], spk: &[u8]) -> Vec<String> {
+    let mut out = Vec::new();
+    for (i, net) in NETS.iter().enumerate() {
+        let want = oracle_addr(okey, *net);
+        let (w_spk, w_txt) = (want.script_pubkey().to_bytes(), want.to_string());
+        debug_assert_eq!(w_spk, spk);
+        match o.addrs.get(i) {
+            None => out.push(format!("no address observed for {:?}", net)),
+            Some((a1, a2)) => {
+                if a1.0 != spk || a1.1 != w_txt {
+                    out.push(format!("Tr::address({:?}) = {} (script_pubkey {}) but the output key's address is {} (script_pubkey() = {})", net, a1.1, hex(&a1.0), w_txt, hex(spk)));
+                }
+                match a2 {
+                    Ok(a2) if a2.0 == spk && a2.1 == w_txt => {}
+                    other => out.push(format!("Descriptor::address({:?}) = {:?} but the output key's address is {} (script_pubkey() = {})", net, other.as_ref().map(|a| a.1.clone()), w_txt, hex(spk))),
+                }
+            }
+        }
+        if out.len() >= 2 {
+            break;
+        }
+    }
+    out
 }
 fn observe<Pk: MiniscriptKey + ToPublicKey>(d: &Descriptor<Pk>) -> Result<Obs, String> {
     catch_unwind(AssertUnwindSafe(|| {
@@ -594,6 +631,24 @@ fn observe<Pk: MiniscriptKey + ToPublicKey>(d: &Descriptor<Pk>) -> Result<Obs, S
             parity: if si.output_key_parity() == Parity::Odd { 1 } else { 0 },
             spk: d.script_pubkey().to_bytes(),
             printed: d.to_string(),
+            addrs: NETS
+                .iter()
+                .map(|net| {
+                    let a1 = tr.address(*net);
+                    let a2 = d.address(*net).map(|a| (a.script_pubkey().to_bytes(), a.to_string())).map_err(|e| format!("{:?}", e));
+                    ((a1.script_pubkey().to_bytes(), a1.to_string()), a2)
+                })
+                .collect(),
+            tap_tree: catch_unwind(AssertUnwindSafe(|| {
+                si.to_tap_tree().map(|tt| {
+                    let lv = tt
+                        .script_leaves()
+                        .map(|l| (l.script().to_bytes(), l.merkle_branch().len(), l.version() == LeafVersion::TapScript, l.merkle_branch().serialize()))
+                        .collect::<Vec<_>>();
+                    (lv, tt.root_hash().to_byte_array())
+                })
+            }))
+            .map_err(|p| panic_msg(&p)),
         }
     }))
     .map_err(|p| panic_msg(&p))
@@ -655,6 +710,30 @@ fn judge(o: &Obs, e: &Exp) -> Vec<(&'static str, String)> {
                 i, el.depth, hex_short(&l.cb), hex_short(&want), verdict)));
             if out.len() > 12 {
                 break;
+            }
+        }
+    }
+    for p in addr_problems(o, &e.okey, &e.spk) {
+        out.push(("address", p));
+    }
+    match &o.tap_tree {
+        Err(p) => out.push(("to-tap-tree", format!("TrSpendInfo::to_tap_tree panics: {}", p))),
+        Ok(None) => out.push(("to-tap-tree", "TrSpendInfo::to_tap_tree returns None for a descriptor with a script tree".to_string())),
+        Ok(Some((lv, root))) => {
+            let mut got: Vec<(usize, i64)> = lv.iter().map(|(s, d, _, _)| (*d, lab(s))).collect();
+            let mut want: Vec<(usize, i64)> = exp_dl.iter().map(|(d, l)| (*d, *l as i64)).collect();
+            let mut got_full: Vec<(&Vec<u8>, usize, Vec<u8>)> = lv.iter().map(|(s, d, _, b)| (s, *d, b.clone())).collect();
+            let mut want_full: Vec<(&Vec<u8>, usize, Vec<u8>)> = e.leaves.iter().map(|l| (&l.script, l.depth, l.path.concat())).collect();
+            got.sort();
+            want.sort();
+            got_full.sort();
+            want_full.sort();
+            if got_full != want_full || lv.iter().any(|l| !l.2) {
+                out.push(("to-tap-tree", format!("to_tap_tree has the (depth,leaf) multiset {:?} (all tapscript: {}, merkle branches equal BIP341 paths: {}), the described tree has {:?}",
+                    short(&got), lv.iter().all(|l| l.2), got == want && got_full == want_full, short(&want))));
+            }
+            if *root != e.root {
+                out.push(("to-tap-tree", format!("to_tap_tree root {} but BIP341 root of the tree is {}", hex(root), hex(&e.root))));
             }
         }
     }
@@ -1052,6 +1131,11 @@ fn run_case<Pk: HKey>(case: &Case, out: &mut Out) {
     st.push(toks.len() as u64);
     st.extend(&toks);
     push_pairs(&mut st, &dl_of(&obs_all[3], &e_shift));
+    let tt_dl: Vec<(u64, u64)> = match &obs_all[0] {
+        Some(Obs { tap_tree: Ok(Some((lv, _))), .. }) => lv.iter().map(|(s, d, _, _)| (*d as u64, lab_of(&e, s))).collect(),
+        _ => vec![],
+    };
+    push_pairs(&mut st, &tt_dl);
     if case.leaves.len() > 250 {
         return; // counts would not fit the 10-bit packing (never happens with the generators above)
     }
@@ -1118,6 +1202,46 @@ fn dpk(xp: &Xpub, i: usize) -> DescriptorPublicKey {
             .clone()
     })
 }
+/// PSBT OUTPUT update: `update_output_with_descriptor` must accept the descriptor for the output
+/// OP_1 <oracle output key> and fill tap_internal_key / tap_tree with the described tree
+fn psbt_output_problems(d: &Descriptor<miniscript::DefiniteDescriptorKey>, e: &Exp) -> Vec<String> {
+    use miniscript::psbt::PsbtExt;
+    let r = catch_unwind(AssertUnwindSafe(|| {
+        let tx = bitcoin::Transaction {
+            version: bitcoin::transaction::Version::TWO,
+            lock_time: bitcoin::absolute::LockTime::ZERO,
+            input: vec![bitcoin::TxIn::default()],
+            output: vec![bitcoin::TxOut { value: bitcoin::Amount::from_sat(10_000), script_pubkey: ScriptBuf::from_bytes(e.spk.clone()) }],
+        };
+        let mut psbt = bitcoin::Psbt::from_unsigned_tx(tx).map_err(|e| format!("{:?}", e))?;
+        psbt.update_output_with_descriptor(0, d).map_err(|e| format!("update_output_with_descriptor: {:?}", e))?;
+        let o = &psbt.outputs[0];
+        let mut out = Vec::new();
+        if o.tap_internal_key.map(|k| k.serialize()) != Some(e.internal) {
+            out.push(format!("tap_internal_key {:?} expected {}", o.tap_internal_key, hex(&e.internal)));
+        }
+        match &o.tap_tree {
+            None => out.push("psbt output tap_tree not set".to_string()),
+            Some(tt) => {
+                let mut got: Vec<(Vec<u8>, usize)> = tt.script_leaves().map(|l| (l.script().to_bytes(), l.merkle_branch().len())).collect();
+                let mut want: Vec<(Vec<u8>, usize)> = e.leaves.iter().map(|l| (l.script.clone(), l.depth)).collect();
+                got.sort(); // rust-bitcoin orders the children of a branch by hash
+                want.sort();
+                if got != want || tt.root_hash().to_byte_array() != e.root {
+                    out.push(format!("psbt output tap_tree has depths {:?} root {}, the described tree has depths {:?} root {}",
+                        short(&got.iter().map(|g| g.1).collect::<Vec<_>>()), hex(&tt.root_hash().to_byte_array()),
+                        short(&want.iter().map(|g| g.1).collect::<Vec<_>>()), hex(&e.root)));
+                }
+            }
+        }
+        Ok::<_, String>(out)
+    }));
+    match r {
+        Ok(Ok(v)) => v,
+        Ok(Err(e)) => vec![e],
+        Err(p) => vec![format!("panic: {}", panic_msg(&p))],
+    }
+}
 fn judge_variant<Pk: MiniscriptKey + ToPublicKey>(name: &str, d: Result<Descriptor<Pk>, String>, ex: &Exp, case: &Case, spec: &str, out: &mut Out) {
     out.variants += 1;
     match d {
@@ -1182,6 +1306,11 @@ fn run_dpk(case: &Case, out: &mut Out) {
                 DerivationResult::Error(e) => Err(format!("DeriveError:{:?}", e)),
             }))
             .unwrap_or_else(|p| Err(format!("Panic:{}", panic_msg(&p))));
+            if let (Ok(dd), 0, "api") = (&r1, j, route) {
+                for p in psbt_output_problems(dd, &ex_def) {
+                    out.violation("oracle:psbt-output-tap-tree", format!("[api+derive_at_index(0)] {}", p), &spec);
+                }
+            }
             judge_variant(&format!("{}+derive_at_index({})", route, j), r1, &ex_def, case, &spec, out);
             let r2 = catch_unwind(AssertUnwindSafe(|| d.derived_descriptor(&secp, j).map_err(|e| format!("DeriveError:{:?}", e))))
                 .unwrap_or_else(|p| Err(format!("Panic:{}", panic_msg(&p))));
@@ -1267,7 +1396,11 @@ fn run_keyspend<Pk: HKey>(ik: usize, out: &mut Out) {
                     && o.okey == okey.serialize()
                     && o.parity == (if parity == Parity::Odd { 1 } else { 0 })
                     && o.spk == spk.to_bytes()
-                    && o.printed.split('#').next() == Some(text.as_str());
+                    && o.printed.split('#').next() == Some(text.as_str())
+                    && matches!(o.tap_tree, Ok(None));
+                for p in addr_problems(&o, &okey.serialize(), &spk.to_bytes()) {
+                    out.violation("oracle:address", format!("[{}] {}: {}", name, text, p), &spec);
+                }
                 if !ok {
                     out.violation(
                         "oracle:keyspend-only",
